@@ -37,6 +37,8 @@ def plan(tier, seed):
     cases = [{"kind": "gen", "seed": seed, "k": k} for k in range(n)]
     for k in range(8 if tier == "quick" else 60):
         cases.append({"kind": "shipped", "seed": seed, "k": k})
+    for k in range(6 if tier == "quick" else 80):
+        cases.append({"kind": "multi", "seed": seed, "k": k})
     if tier == "thorough":
         cases.append({"kind": "na10860"})
     return cases
@@ -204,6 +206,42 @@ def run(case):
         nontrivial = run_pair(res, argv + params, bam, desc, "smp1")
         if case["k"] < 2:
             res.sample = desc
+    elif case["kind"] == "multi":
+        # an archive holding two genes (one BAM with both loci on different contigs)
+        rng = util.rng_for("c17m", case["seed"], case["k"])
+        genome = rng.choice(["hg19", "hg38"])
+        for _ in range(40):
+            a = _sim.gen_db(rng.randrange(30), genome, want_cn=True)
+            b = _sim.gen_db(rng.randrange(30), genome, want_cn=True, name="GENY")
+            if a.chrom != b.chrom:
+                break
+        else:
+            res.count("skipped_same_contig")
+            res.fp, res.nontrivial = util.fingerprint(case), False
+            return res
+
+        def both(fname, ca, cb):
+            rds = []
+            for tid, (db, copies) in enumerate(((a, ca), (b, cb))):
+                rr = reads.simulate(db.gene, reads.haplotypes_for(db.gene, copies), rl=100, depth=20, ref=db.ref,
+                                    neutral=a.neutral if tid == 0 else None, rng=rng, name_prefix=f"t{tid}r")
+                for r in rr:
+                    r["tid"] = tid
+                rds += rr
+            return reads.write_bam(os.path.join(scratch, fname), a.chrom, a.contig_len, rds,
+                                   extra_contigs=[(b.chrom, b.contig_len)])
+
+        ra, rb = a.reference_copy(), b.reference_copy()
+        refbam = both("m_ref.bam", [ra, ra], [rb, rb])
+        ca, cb = _sim.random_genotype(a, rng), _sim.random_genotype(b, rng)
+        bam = both("smp3.bam", ca, cb)
+        n0, n1 = a.neutral
+        order = [a.path, b.path] if rng.random() < 0.5 else [b.path, a.path]
+        argv = ["--gene", ",".join(order), "--profile", refbam, "-n", f"{a.chrom}:{n0}-{n1}", "--genome", genome]
+        desc = {"dbs": [a.label, b.label], "planted": [[list(c[:2]) for c in ca], [list(c[:2]) for c in cb]],
+                "order": [os.path.basename(p) for p in order]}
+        nontrivial = run_pair(res, argv, bam, desc, "smp3")
+        res.sample = desc if case["k"] < 2 else None
     elif case["kind"] == "shipped":
         rng = util.rng_for("c17s", case["seed"], case["k"])
         genome = rng.choice(["hg19", "hg38"])
